@@ -116,9 +116,12 @@ def gen_garbage(rng, name, direction, uid):
         # the head of a frame whose byte-count field announces a frame at or beyond the 256-byte maximum
         big = rng.choice([0xF0, 0xF6, 0xF7, 0xF8, 0xFA, 0xFB, 0xFC, 0xFE, 0xFF])
         if direction == 'req':
-            g = rng.choice([[uid, rng.choice([15, 16]), 0, rng.randrange(200), 0, rng.randrange(1, 120), big],
-                            [uid, 23, 0, 1, 0, 2, 0, 3, 0, rng.randrange(1, 120), big],
-                            [uid, rng.choice([20, 21]), big, 6, 0, 1]])
+            hi = lambda: rng.choice([0, 0, 1, 0x40, 0x7F, 0xFF, rng.randrange(256)])   # noqa: E731  (damaged high bytes too)
+            g = rng.choice([[uid, rng.choice([15, 16]), hi(), rng.randrange(200), hi(), rng.randrange(1, 120), big],
+                            [uid, 23, hi(), 1, hi(), 2, hi(), 3, hi(), rng.randrange(1, 120), big],
+                            [uid, 23, 0, 1, 0, 2, 0, 3, hi(), rng.randrange(1, 120), rng.randrange(256)],
+                            [uid, rng.choice([15, 16]), 0, 0, hi(), rng.randrange(256), rng.randrange(256)],
+                            [uid, rng.choice([20, 21]), big, 6, hi(), 1]])
         else:
             g = [uid, rng.choice([1, 2, 3, 4, 20, 21, 23]), big]
         g = g + [rng.randrange(256) for _ in range(rng.choice([0, 0, 1, 4]))]
